@@ -6,9 +6,18 @@ V = os.path.dirname(os.path.dirname(os.path.abspath(__file__)))
 
 # property -> [(rule id, call expression using `run`, `f`, `fx`)]
 WIRES = {
-    "C01": [("C01-GROW-REFUSAL", 'wave2.grow_refusal_rule(run, f, "C01-GROW-REFUSAL")')],
-    "C02": [("C02-NO-STATE-GATE", 'wave2.wait_no_state_gate_rule(run, f, "C02-NO-STATE-GATE")')],
+    "C01": [("C01-CONTAINER-API", 'wave3.container_api_rule(run, f, "C01-CONTAINER-API")'),
+            ("C01-GROW-REFUSAL", 'wave2.grow_refusal_rule(run, f, "C01-GROW-REFUSAL")')],
+    "C02": [("C02-RESULTS-DELETERS", 'wave3.results_deleters_rule(run, f, "C02-RESULTS-DELETERS")'),
+            ("C02-NO-STATE-GATE", 'wave2.wait_no_state_gate_rule(run, f, "C02-NO-STATE-GATE")')],
+    "C03": [("C03-CONTAINER-API", 'wave3.container_api_rule(run, f, "C03-CONTAINER-API")')],
     "C05": [("C05-FIRST-HIT", 'wave2.return_at_first_hit_rule(run, f, "C05-FIRST-HIT")')],
+    "C07": [("C07-BROADCAST-EVERY-CHANGE", 'wave3.change_broadcast_rule(run, f, "C07-BROADCAST-EVERY-CHANGE")'),
+            # the state reported for a yield (Suspend(y, t) / Cancelled) is read from the per-yield requests: C09's rules are
+            # necessary for "each change is reported with the correct new state" as well
+            ("C07-YIELD-REQUESTS", 'coro.push_yield_rule(run, f, "C07-YIELD-REQUESTS")'),
+            ("C07-YIELD-DRAIN", 'coro.drain_rule(run, f, "C07-YIELD-DRAIN")'),
+            ("C07-REQUEST-PAIRING", 'wave2.request_pairing_rule(run, f, "C07-REQUEST-PAIRING")')],
     "C08": [("C08-CURRENT-ENDS", 'wave2.current_ends_rule(run, f, "C08-CURRENT-ENDS")'),
             # a yield misreported (Cancelled instead of Suspend(y, t), or with another coroutine's delay) loses the yielded value:
             # the per-yield request rules of C09 are necessary conditions of C08 as well
@@ -16,18 +25,24 @@ WIRES = {
             ("C08-YIELD-DRAIN", 'coro.drain_rule(run, f, "C08-YIELD-DRAIN")'),
             ("C08-REQUEST-PAIRING", 'wave2.request_pairing_rule(run, f, "C08-REQUEST-PAIRING")')],
     "C09": [("C09-REQUEST-PAIRING", 'wave2.request_pairing_rule(run, f, "C09-REQUEST-PAIRING")')],
-    "C11": [("C11-WORKER-EXIT", 'wave2.worker_exit_rule(run, f, "C11-WORKER-EXIT")')],
-    "C12": [("C12-GROW-REFUSAL", 'wave2.grow_refusal_rule(run, f, "C12-GROW-REFUSAL")')],
+    "C10": [("C10-PROMOTION-EXITS", 'wave3.promotion_exits_rule(run, f, "C10-PROMOTION-EXITS")')],
+    "C11": [("C11-BROADCAST-EVERY-CHANGE", 'wave3.change_broadcast_rule(run, f, "C11-BROADCAST-EVERY-CHANGE")'),
+            ("C11-WORKER-EXIT", 'wave2.worker_exit_rule(run, f, "C11-WORKER-EXIT")')],
+    "C12": [("C12-CLEAN-ALL", 'wave3.clean_all_waiters_rule(run, f, "C12-CLEAN-ALL")'),
+            ("C12-GROW-REFUSAL", 'wave2.grow_refusal_rule(run, f, "C12-GROW-REFUSAL")')],
     "C13": [("C13-RUNNING-RECORD", 'wave2.running_coroutine_record_rule(run, f, "C13-RUNNING-RECORD")'),
             ("C13-REQUEST-PAIRING", 'wave2.request_pairing_rule(run, f, "C13-REQUEST-PAIRING")')],
-    "C14": [("C14-SCALE-WIDTH", 'wave2.wide_scale_rule(run, f, "C14-SCALE-WIDTH")')],
+    "C14": [("C14-NOW-REALTIME", 'wave3.now_is_realtime_rule(run, f, "C14-NOW-REALTIME")'),
+            ("C14-SCALE-WIDTH", 'wave2.wide_scale_rule(run, f, "C14-SCALE-WIDTH")')],
     "C15": [("C15-GROW-REFUSAL", 'wave2.grow_refusal_rule(run, f, "C15-GROW-REFUSAL")'),
             ("C15-IDLE-PARK", 'wave2.idle_block_rule(run, f, "C15-IDLE-PARK")')],
     "C16": [("C16-ERRNO-FRESH", 'wave2_nio.errno_not_stale_rule(run, f, "C16-ERRNO-FRESH")'),
             ("C16-NO-RAW-ARRAY", 'wave2_nio.no_raw_array_rule(run, f, "C16-NO-RAW-ARRAY")'),
-            ("C16-INDEX-ADVANCES", 'wave2_nio.index_advances_rule(run, f, "C16-INDEX-ADVANCES")')],
+            ("C16-INDEX-ADVANCES", 'wave2_nio.index_advances_rule(run, f, "C16-INDEX-ADVANCES")'),
+            ("C16-HEAD-UNUSED-AFTER-SUCCESS", 'wave2_nio.no_reissue_while_head_wrong_rule(run, f, "C16-HEAD-UNUSED-AFTER-SUCCESS")')],
     "C17": [("C17-NO-RAW-ARRAY", 'wave2_nio.no_raw_array_rule(run, f, "C17-NO-RAW-ARRAY")'),
-            ("C17-INDEX-ADVANCES", 'wave2_nio.index_advances_rule(run, f, "C17-INDEX-ADVANCES")')],
+            ("C17-INDEX-ADVANCES", 'wave2_nio.index_advances_rule(run, f, "C17-INDEX-ADVANCES")'),
+            ("C17-HEAD-UNUSED-AFTER-SUCCESS", 'wave2_nio.no_reissue_while_head_wrong_rule(run, f, "C17-HEAD-UNUSED-AFTER-SUCCESS")')],
     "C20": [("C20-POLL-EVERY-ROUND", 'wave2.poll_every_round_rule(run, f, "C20-POLL-EVERY-ROUND")')],
     "C24": [("C24-FAULT-SIGNALS-UNBLOCKED", 'wave2.fault_signals_unblocked_rule(run, f, "C24-FAULT-SIGNALS-UNBLOCKED")')],
     "C25": [("C25-DELETERS", 'wave2.local_deleters_rule(run, f, "C25-DELETERS")'),
@@ -70,6 +85,8 @@ for pid, wires in sorted(WIRES.items()):
     need_imp = []
     if "wave2." in lines and not re.search(r"^from rules import .*\bwave2\b", s, re.M):
         need_imp.append("wave2")
+    if "wave3." in lines and not re.search(r"^from rules import .*\bwave3\b", s, re.M):
+        need_imp.append("wave3")
     if "wave2_nio." in lines and not re.search(r"^from rules import .*\bwave2_nio\b", s, re.M):
         need_imp.append("wave2_nio")
     if "coro." in lines and not re.search(r"^from rules import .*\bcoro\b", s, re.M):
